@@ -114,7 +114,7 @@ class Spec:
         det = self.make(case["params"])
         data = case["data"]
         if self.kind == "batch":
-            np.random.seed(seed_of(case, -1))
+            np.random.seed(seed_of(case, case.get("_ref_step", -1)))
             det.set_reference(np.array(data[0], dtype=float))
             return det, data[1:]
         return det, data
@@ -140,10 +140,15 @@ class Spec:
 
     def run(self, case):
         det, data = self.start(case)
+        off = case.get("_offset", 0)
+        setref = case.get("_set_reference_at")        # explicit set_reference(data item) instead of update, batch only
         rows = [dict(self.observe(det), step=-1)] if self.kind == "batch" else []
         for i, item in enumerate(data):
-            np.random.seed(seed_of(case, i))
-            self.feed(det, item)
+            np.random.seed(seed_of(case, i + off))
+            if setref is not None and i == setref:
+                det.set_reference(np.array(item, dtype=float))
+            else:
+                self.feed(det, item)
             rows.append(self.observe(det))
         return rows
 
@@ -156,10 +161,9 @@ class Spec:
         """case for a newly constructed detector fed only the data after step i"""
         data = case["data"][1:] if self.kind == "batch" else case["data"]
         if self.kind == "batch":
-            new = [data[i]] + data[i + 1:]
-        else:
-            new = data[i + 1:]
-        return dict(case, data=new, _offset=i + 1)
+            # the drifted batch becomes the reference; the reference is (re)built in the update that follows the drift
+            return dict(case, data=[data[i]] + data[i + 1:], _offset=i + 1, _ref_step=i + 1)
+        return dict(case, data=data[i + 1:], _offset=i + 1)
 
 
 def epoch_start(rows, i):
